@@ -20,7 +20,7 @@ def supE : Expr → Bool
   | .struct _ fields _ => supFields fields
   | .block ss e => supSs ss && supE e
   | .mtch scrut arms => supE scrut && supArmsE arms
-  | _ => false
+  | .substruct e _ => supE e
 def supArgs : List Expr → Bool
   | [] => true
   | e :: es => supE e && supArgs es
@@ -198,6 +198,8 @@ structure ProgOk : Prop where
   funs : FunsOk S
   sup : ∀ f fd, S.m.p.funDef f = some fd → supSs fd.body = true
   ffi : FfiOk S.m
+  /-- field names of a struct definition are distinct (`define_struct` rejects duplicates) -/
+  structs : ∀ n d, S.m.p.structDef n = some d → (d.map (·.1)).Nodup
 
 structure AllSim (n : Nat) : Prop where
   e : ExprSim S n
